@@ -209,14 +209,41 @@ func solveAll(obls []*Obligation, dir string, timeout int) {
 			if len(fn) > 150 {
 				fn = fn[:150]
 			}
-			file, err := writeQuery(dir, fn, o.Query())
-			if err != nil {
-				o.Result = &SolveResult{Status: "error", Output: err.Error()}
-				return
+			parts := []string{o.Goal}
+			if !o.MustBeSat {
+				parts = splitGoalText(o.Goal, 24)
 			}
-			o.File = file
-			r := solve(file, timeout)
-			o.Result = &r
+			var agg *SolveResult
+			for pi, part := range parts {
+				pf := fn
+				if len(parts) > 1 {
+					pf = fmt.Sprintf("%s_part%d", fn, pi+1)
+				}
+				file, err := writeQuery(dir, pf, o.QueryFor(part))
+				if err != nil {
+					o.Result = &SolveResult{Status: "error", Output: err.Error()}
+					return
+				}
+				r := solve(file, timeout)
+				if agg == nil {
+					agg = &r
+					o.File = file
+				} else {
+					agg.Time += r.Time
+					if r.Status != "unsat" && agg.Status == "unsat" {
+						t := agg.Time
+						rr := r
+						agg = &rr
+						agg.Time = t
+						o.File = file
+					}
+				}
+				if r.Status != "unsat" && len(parts) > 1 {
+					o.FailedPart = part
+				}
+			}
+			o.Parts = len(parts)
+			o.Result = agg
 		}(i, o)
 	}
 	wg.Wait()
